@@ -84,6 +84,16 @@ def check(tier):
         ch = chr(int(h, 16))
         if ch not in "\"'\\{}\n\r\0":
             srcs.append({"id": f"sc{n_}", "src": f"from t | derive {{v = \"<{ch}>\"}}"}); n_ += 1
+    # runs of quotes: strings that contain both kinds of quote, with runs of 1 to 6 of either (the formatter has to pick a
+    # delimiter longer than every run of its quote character), at the start, in the middle and at the end
+    n_ = 0
+    for run in range(1, 7):
+        for qc, oc in (('"', "'"), ("'", '"')):
+            r = ("\\" + qc) * run        # written with escapes inside a string delimited by the other... both escaped to be safe
+            for body in (f"x{oc} {r}", f"{r} y{oc}", f"a{oc}{r}b", f"{oc}{r}", f"{r}{oc}", f"{r} {oc}{oc} {r}"):
+                body = body.replace(oc, "\\" + oc)
+                srcs.append({"id": f"qr{n_}", "src": f"from t | derive {{v = \"{body}\"}}"}); n_ += 1
+                srcs.append({"id": f"qr{n_}", "src": f"from t | select {{a = \"{body}\", b = \"{body[::-1] if False else body} z\"}}"}); n_ += 1
     # f-string interpolations with format specifications; ranges whose bounds are operator expressions; names that need
     # backticks in every declaration form
     for i, x in enumerate(["f\"{a:>10} and {b:.2f}\"", "f\"{a:05}\"", "f\"x{a}y{b:e}\""]):
